@@ -46,6 +46,7 @@ import common
 class _PickleTap:
     def __init__(self):
         self.active = False
+        self.no_unpickle = False   # do not feed known non-pickle bytes to the real unpickler
         self.dumped = []      # (deep copy of obj, protocol, bytes written)
         self.loaded = []      # bytes handed to pickle.load / loads
 
@@ -93,22 +94,35 @@ def _tap_dumps(obj, protocol=None, **kw):
         TAP.active = True
 
 
+class _NotUnpickled:
+    """Returned in place of unpickling bytes the harness knows are not a pickle (raw byte
+    payloads): CPython's unpickler is not meant to be fed arbitrary bytes."""
+
+
 def _tap_load(file, **kw):
     if TAP.active:
+        seen = False
         try:
             if hasattr(file, 'getvalue') and hasattr(file, 'tell'):
                 TAP.loaded.append(bytes(file.getvalue()[file.tell():]))
+                seen = True
         except Exception:
             pass
+        if seen and TAP.no_unpickle:
+            return _NotUnpickled()
     return _ORIG['load'](file, **kw)
 
 
 def _tap_loads(data, **kw):
     if TAP.active:
+        seen = False
         try:
             TAP.loaded.append(bytes(data))
+            seen = True
         except Exception:
             pass
+        if seen and TAP.no_unpickle:
+            return _NotUnpickled()
     return _ORIG['loads'](data, **kw)
 
 
@@ -471,6 +485,22 @@ def fixed_cases():
     return cases
 
 
+def exhaustive_cases(depth):
+    """Every sequence of `depth` dumps to one key over lengths {0, 1, 2, 5} x {all-zero, zeros
+    mixed with non-zero}, with a second key as frame sentinel: all transitions
+    absent/shorter/longer/equal between all these payloads, in every order."""
+    import itertools
+    pays = ['', '00', '07', '0000', '0100', '0000000000', '0100020000']
+    cases = []
+    for n, seq in enumerate(itertools.product(range(len(pays)), repeat=depth)):
+        ops = [['group', 'a'], ['raw', 'a', DEFAULT_NAME, ['hex', 'ff00ff']]]
+        for i in seq:
+            ops += [['raw', None, DEFAULT_NAME, ['hex', pays[i]]], ['load', None, DEFAULT_NAME]]
+        ops += [['load', 'a', DEFAULT_NAME], ['ls']]
+        cases.append({'id': 'exh%d-%s' % (depth, ''.join(map(str, seq))), 'samplers': [], 'ops': ops})
+    return cases
+
+
 # --------------------------------------------------------------------------
 # executing a case on the real code
 # --------------------------------------------------------------------------
@@ -599,7 +629,7 @@ def execute(case, res=None):
                     continue
             TAP.reset()
             fp.calls = []
-            before = expected.get(loc)
+            before = fp.listing()[1].get(loc)      # what the file really holds at the key
             try:
                 if kind == 'raw':
                     want = mk_bytes(op[3])
@@ -619,6 +649,7 @@ def execute(case, res=None):
                 exc = e
             finally:
                 TAP.active = False
+            _gap(exc)
             captured = TAP.dumped[0][2] if TAP.dumped else None
             if kind == 'ckpt':
                 if captured is not None:
@@ -628,8 +659,10 @@ def execute(case, res=None):
                 else:
                     res.count('dump_bytes_uncaptured')
             elif kind == 'state' and captured is not None and captured != want:
-                finding('dump-bytes', 'dump_state(protocol=%r) pickled %d bytes that differ from '
-                        'pickle.dumps(state, protocol) (%d bytes)' % (proto_used, len(captured), len(want)), op)
+                # not a violation of C20 (any pickle of the state will do): the bytes the real
+                # code pickled are the oracle input
+                res.count('dump_bytes_differ_from_harness_pickle')
+                want = captured
             calls = [c[0] for c in fp.calls]
             branch = 'create' if 'create' in calls else ('resize' if 'resize' in calls else 'keep')
             _, dsets = fp.listing()
@@ -664,7 +697,13 @@ def execute(case, res=None):
                                'nothing' if stored is None else
                                '%d bytes, first difference at offset %s' % (len(stored), _first_diff(stored, want))), op,
                             {'expected_sha1': hashlib.sha1(want).hexdigest()})
-                expected[loc] = (want, obj, loadable)
+                    # go on with what the file holds, so that one defect is reported once
+                    if stored is not None:
+                        expected[loc] = (stored, None, False)
+                    else:
+                        expected.pop(loc, None)
+                else:
+                    expected[loc] = (want, obj, loadable)
                 check_frame(op, loc)
             else:
                 res.real.append('raise %s' % type(exc).__name__)
@@ -683,6 +722,7 @@ def execute(case, res=None):
             loc = loc_of(path, name)
             TAP.reset()
             TAP.active = True
+            TAP.no_unpickle = loc in expected and not expected[loc][2]
             got, exc = None, None
             try:
                 got = epsie.load_state(fp, path=path, dsetname=name)
@@ -690,6 +730,8 @@ def execute(case, res=None):
                 exc = e
             finally:
                 TAP.active = False
+                TAP.no_unpickle = False
+            _gap(exc)
             read = TAP.loaded[0] if TAP.loaded else None
             res.proto.append('load %s %s' % (ppath(path), name))
             exp = expected.get(loc)
@@ -740,13 +782,16 @@ def execute(case, res=None):
             exc = None
             TAP.reset()
             TAP.active = True
+            TAP.no_unpickle = exp is not None and not exp[2]
             try:
                 tw.set_state_from_checkpoint(fp, path=path)
             except Exception as e:
                 exc = e
             finally:
                 TAP.active = False
+                TAP.no_unpickle = False
                 del tw.set_state
+            _gap(exc)
             read = TAP.loaded[0] if TAP.loaded else None
             res.proto.append('load %s %s' % (ppath(path), DEFAULT_NAME))
             if read is not None:
@@ -780,6 +825,14 @@ def execute(case, res=None):
         else:
             raise ValueError(op)
     return res
+
+
+def _gap(exc):
+    """The real code made an h5py call that the stand-in does not implement: that is not a
+    failing input (the property may well hold), it is a correspondence that can no longer be
+    run; it is reported as such by run()."""
+    if isinstance(exc, h5stub.Unsupported):
+        raise exc
 
 
 def _group_exists(fp, path):
@@ -897,9 +950,9 @@ def merge(stats, into):
 def search(chk, level, agg):
     """The failing-input search on the real code (oracle only, no Lean)."""
     rng = random.Random((chk.seed << 10) ^ 0x5EA2C4 ^ (7 if level == 'full' else 0))
-    ncases = 60 if level == 'light' else 300
+    ncases = 60 if level == 'light' else 600
     sizes = SIZES + (BIG_SIZES if level == 'full' else BIG_SIZES[:2])
-    findings = []
+    findings, errs = [], []
     probe = Result()
     all_specs = []
     for kind in ('mh', 'pt'):
@@ -918,7 +971,13 @@ def search(chk, level, agg):
             sz = sz + HUGE_SIZES
         c = gen_case(rng, 'search-%d' % i, sz, rng.randint(6, 25 if level == 'light' else 50), specs,
                      slashed=(i % 3 == 0), errors=True)
-        r = execute(c)
+        try:
+            r = execute(c)
+        except Exception as e:
+            errs.append({'case': c, 'exception': repr(e), 'traceback': traceback.format_exc()[-1500:]})
+            if len(errs) > 5:
+                break
+            continue
         merge(r.stats, agg)
         agg['search_cases'] = agg.get('search_cases', 0) + 1
         for f in r.findings:
@@ -926,7 +985,7 @@ def search(chk, level, agg):
                 findings.append(f)
         if time.time() - t0 > (25 if level == 'light' else 420):
             break
-    return findings
+    return findings, errs
 
 
 def minimise(finding):
@@ -962,12 +1021,12 @@ def run(chk, tier, proof_ok):
     rng = random.Random((chk.seed << 8) ^ 0xC20)
     agg = {}
     # ---- correspondence
-    cases = list(fixed_cases())
+    cases = list(fixed_cases()) + exhaustive_cases(3 if quick else 4)
     probe = Result()
     nspec = 12 if quick else 48
     specs = usable_specs(sampler_specs(rng, nspec, 1 + chk.seed * 97), probe)
     merge(probe.stats, agg)
-    ngen = 120 if quick else 600
+    ngen = 120 if quick else 1200
     sizes = SIZES if quick else SIZES + BIG_SIZES[:3]
     for i in range(ngen):
         sp = [specs[(i + j) % len(specs)] for j in range(2)] if specs and i % 2 == 0 else []
@@ -996,9 +1055,17 @@ def run(chk, tier, proof_ok):
     nproto = sum(len(r.proto) for r in results)
     # ---- search
     full = (not quick) or (not proof_ok) or bool(divs) or bool(errs)
-    for f in search(chk, 'full' if full else 'light', agg):
+    sfind, serrs = search(chk, 'full' if full else 'light', agg)
+    for f in sfind:
         if not any(k == f[0] for k, _, _ in findings):
             findings.append(f)
+    if serrs and not full:                      # the search itself could not run: run it in full
+        sfind, serrs2 = search(chk, 'full', agg)
+        full = True
+        for f in sfind:
+            if not any(k == f[0] for k, _, _ in findings):
+                findings.append(f)
+    errs += serrs
     # ---- coverage
     distinct = agg.pop('_distinct', set())
     nontrivial = agg.pop('_nontrivial', set())
@@ -1048,8 +1115,8 @@ def run(chk, tier, proof_ok):
         payload_case = d['case']
     if errs:
         e = errs[0]
-        broken.append('correspondence suite checkpoint: harness/real code raised outside an observed call: %s'
-                      % e['exception'][:300])
+        broken.append('correspondence suite checkpoint: cannot be run on this code (%d case(s)), first: %s'
+                      % (len(errs), e['exception'][:300]))
         payload_case = payload_case or e['case']
     if broken and not findings and not chk.known_hit:
         chk.violation('unproved', '; '.join(broken)[:1500],
